@@ -842,6 +842,13 @@ class RewriteRuleSet:
                             model, graph, verbose=verbose, tracer=tracer
                         )
 
+        if count and any(
+            not rule._target_pattern.has_single_output_node for rule in self.rules
+        ):
+            # The replacement of a pattern with several output nodes is inserted after the
+            # first of them; a consumer of another output may precede that point.
+            graph_or_function.sort()
+
         for rule in self.rules:
             if rule.graph_post_visitor:
                 rule.graph_post_visitor()
